@@ -3,6 +3,13 @@ package main
 import "time"
 
 var props = map[string]propCfg{
+	"C15": {
+		Level: "fault_enumeration",
+		Rule: "the real CLI runs under strace -f -y with one injected fault per run: SIGKILL on entry to the k-th filesystem syscall (= process death after step k-1) or an errno returned by it (ENOSPC/EIO/EACCES/EPERM/EXDEV/EROFS/EMFILE/EDQUOT as applicable), for every destination syscall k of a dry run (mkdirat openat write fsync close fchmodat renameat per file), on a fresh and on a previously installed destination - enumerated completely in every run; rapid draws longer histories (seed-old / crash / fail / ok sequences, agent, --user/--path). Invariant after every step: each destination file is absent, byte- and mode-identical to before, or the new content with mode 0644; after an error: exit!=0, message, no .tmp-* left, current file intact; a final fault-free run completes the installation. The actual fault point is read back from the strace log. non-trivial/distinct = (kind, syscall, point, errno) actually hit",
+		Assumptions: []string{"crash = process death (SIGKILL), not power loss: directory durability is outside the property", "a step is one syscall; partial writes inside one write(2) are not simulated", "strace per-thread invocation counters: misfires are counted and judged by what was actually injected"},
+		QuickShards: 8, QuickChecks: 12, ThoroughShards: 16, ThoroughChecks: 150,
+		QuickBudget: 75 * time.Second, ThoroughBudget: 9 * time.Minute,
+	},
 	"C12": {
 		Level: "exploration",
 		Rule: "two layers. (1) allocator state machine (rapid t.Repeat, in-package test overlaid on a scratch copy of the repository): reserve(user names) then GetName/Get/GetChannel/re-reserve over a small colliding alphabet (foo foo0 foo00 fooCh fooCh0 err err0 ctx ctx0 ... keywords); model = set of reserved or handed-out names; invariant: every returned name is new, not a keyword/predeclared identifier, not a user name. (2) end to end: declarations with the naming adversary through the real CLI; in the type-checked output every generated identifier per scope must be unique, not a reserved word, not a user package-level name, and no identifier inside a copied provider expression may resolve to a generated local. non-trivial = history requests one base >=2 times and a base that looks suffixed; e2e case with >=2 entities sharing a base name",
